@@ -43,7 +43,7 @@ def run(tier):
         if rv.violated != "ReachesDeadline":
             raise vlib.ToolError("vacuity probe: no state at or after the deadline is reachable in the healthy model")
         drift = 0
-        for (name, n, q, t) in (("healthy3", 3, 300, 4000), ("healthy5", 5, 60, 800)):
+        for (name, n, q, t) in (("healthy3", 3, 300, 4000), ("healthy5", 5, 60, 800), ("healthy4", 4, 60, 800), ("healthy2", 2, 60, 800)):
             programs = t if thorough else q
             pw = os.path.join(work, name)
             summs, files, died = vlib.run_chunked(vraft, "healthy", ["--seed", vlib.seed(), "--n", n], programs,
